@@ -65,6 +65,14 @@ def gen_case(rng, kinds):
     if rng.random() < 0.1:
         yb[:] = yb[0]
         ob[:] = ob[0]
+    if guard == 'inside' and m != 'LN' and rng.random() < 0.1:
+        # large values with small residuals (|y| / |y - ybar| ~ 1e8): the density is the documented one at
+        # every magnitude
+        big = float(rng.choice([2e7, 5e5]))
+        yb = big + rng.uniform(0.0, 3.0, n)
+        ob = yb + rng.normal(size=n) * 0.05
+        sig = {'G': np.array([0.05]), 'M': np.array([0.05 / big]), 'CM': np.array([0.03, 0.02 / big])}[m]
+        guard = 'inside+large-values'
     S = rng.normal(size=(n, p))
     return m, sig, yb, ob, S, guard
 
@@ -157,6 +165,27 @@ def run_case(ctx, chi, m, sig, yb, ob, S, guard):
             ctx.spec('C04.reduced_error_model/' + m, okr, {'model': m, 'sigma': sig, 'ybar': yb, 'obs': ob, 'S': S,
                                                        'fixed': names[kfix]},
                      {'reduced': np.asarray(rg, float).flatten(), 'plain_restricted': g[np.array(keep)]})
+            if len(names) == 2:
+                # the fixed set changes on the SAME object after sensitivities were computed: swapped in one
+                # call, then both fixed one after the other
+                other = 1 - kfix
+                red.fix_parameters({names[kfix]: None, names[other]: float(sig[other])})
+                keep2 = [True] * p + [j != other for j in range(2)]
+                with np.errstate(all='ignore'):
+                    rs2, rg2 = red.compute_sensitivities([float(sig[kfix])], yb, S, ob)
+                ok2 = core.close(float(rs2), s1) and (not math.isfinite(v) or
+                                                     core.close(np.asarray(rg2, float).flatten(), g[np.array(keep2)]))
+                red.fix_parameters({names[kfix]: float(sig[kfix])})
+                with np.errstate(all='ignore'):
+                    rs3, rg3 = red.compute_sensitivities([], yb, S, ob)
+                ok3 = core.close(float(rs3), s1) and (not math.isfinite(v) or
+                                                     core.close(np.asarray(rg3, float).flatten(), g[:p]))
+                ctx.spec('C04.reduced_error_model/' + m, ok2 and ok3,
+                         {'model': m, 'sigma': sig, 'ybar': yb, 'obs': ob, 'S': S,
+                          'sequence': ['fix ' + names[kfix], 'sensitivities', 'release it and fix ' + names[other] +
+                                       ' in one call', 'sensitivities', 'fix ' + names[kfix] + ' as well', 'sensitivities']},
+                         {'after_swap': np.asarray(rg2, float).flatten(), 'expected': g[np.array(keep2)],
+                          'both_fixed': np.asarray(rg3, float).flatten(), 'expected_both_fixed': g[:p]})
         except Exception as e:  # noqa
             ctx.spec('C04.reduced_error_model/' + m, False, {'model': m, 'sigma': sig, 'S_width': p,
                                                        'fixed': names[kfix]}, {'raised': repr(e)[:200]})
@@ -193,6 +222,9 @@ def run_case(ctx, chi, m, sig, yb, ob, S, guard):
     ctx.spec('C04.pointwise_sum/' + m, core.close(float(np.sum(pw)), v), inp)
     ctx.spec('C04.S1_score/' + m, core.close(s1, v), inp)
     ctx.spec('C04.grad_len/' + m, len(g) == p + len(sig), inp, {'len': len(g)})
+    if 'large-values' in guard:
+        return      # finite differences of values ~1e7 with residuals ~0.05 are round-off; the gradient is
+                    # compared with the Lean model's closed form (C04.em.grad) at these inputs
     # gradient vs finite differences of chi's own value
     for k in range(len(sig)):
         ok, est = oracle.grad_matches(
@@ -253,7 +285,7 @@ def length_mismatch(ctx, chi):
 
 def run(ctx):
     chi = core.import_chi()
-    n_cases = 400 if ctx.tier == 'quick' else 20000
+    n_cases = 1600 if ctx.tier == 'quick' else 20000
     length_mismatch(ctx, chi)
     # boundary corpus first
     corpus = [('CM', [1.0, 0.5], [2.0, 1.0, 3.0], [2.5, 0.5, 3.0]),
